@@ -29,12 +29,16 @@ Bindings == {"redirect", "post", "soap"}
 \* tool operates on the first Signature below the start node, which is the genuine one
 \* wrapped_prefix: as wrapped, the forged request's identifier extending the genuine one ("req1" / "req1-2")
 Sigs == {"none", "valid", "invalid", "wrapped", "wrapped_ownref", "wrapped_prefix"}
-Muts == {"none", "dest_foreign", "dest_absent", "dest_other_binding", "stale", "future", "wrong_root", "schema",
+\* version_*: another Version than the string "2.0" (an older one; another spelling of the number two);
+\* stale26h / future26h: IssueInstant 26 hours away -- outside the window by less than any time-zone offset
+Muts == {"none", "dest_foreign", "dest_absent", "dest_other_binding", "stale", "future", "stale26h", "future26h", "version_11", "version_2",
+         "wrong_root", "schema",
          "garbled_base64", "garbled_deflate", "truncated_xml", "not_xml"}
 \* issuerKey: metadata holds a signing key for the requester, or none
 Scn == [rtype : Types, binding : Bindings, sig : Sigs, want : BOOLEAN, mut : Muts, endpoint : {"configured", "otherBindingOnly"},
         issuerKey : {"known", "nokey"},
-        certOnly : BOOLEAN]          \* want_authn_requests_only_with_valid_cert (implies that requests must be signed)
+        certOnly : BOOLEAN,          \* want_authn_requests_only_with_valid_cert (implies that requests must be signed)
+        tz : {"UTC", "east9", "west8"}]      \* time zone of the receiving process: instants are UTC whatever it is
 WellFormed(s) ==
     /\ (s.rtype = "authn" => s.binding \in {"redirect", "post"})
     /\ (s.rtype \in Queries => s.binding = "soap" /\ s.endpoint = "configured")
@@ -45,6 +49,8 @@ WellFormed(s) ==
     /\ (s.endpoint = "otherBindingOnly" => s.binding = "post")    \* receiver publishes a redirect endpoint only
     /\ (s.mut = "dest_other_binding" => s.endpoint = "configured" /\ s.rtype \notin Queries)
     /\ (s.issuerKey = "nokey" => s.sig \in {"valid", "invalid"} /\ s.mut = "none" /\ s.endpoint = "configured")
+    /\ (s.tz # "UTC" => s.mut \in {"none", "stale26h", "future26h"} /\ s.sig = "none" /\ ~s.want /\ ~s.certOnly /\ s.issuerKey = "known"
+                          /\ s.endpoint = "configured")
     /\ (s.certOnly => s.rtype \in {"authn", "logout_idp", "attrquery"} /\ s.issuerKey = "known" /\ s.endpoint = "configured"
                       /\ s.mut \in {"none", "dest_foreign", "stale"} /\ ~s.want)
 
@@ -71,11 +77,11 @@ Verify ==
     /\ pc = "verify"
     /\ IF scn.mut \in {"dest_foreign", "dest_other_binding"} /\ DestChecked
        THEN Refuse
-       ELSE IF scn.mut \in {"stale", "future"} THEN Refuse
+       ELSE IF scn.mut \in {"stale", "future", "stale26h", "future26h", "version_11", "version_2"} THEN Refuse
        ELSE verdict' = "hand" /\ pc' = "done" /\ UNCHANGED scn
 
 \* ---- contract
-MustRefuse == \/ scn.mut \in {"dest_foreign", "stale", "future", "wrong_root", "schema", "garbled_base64",
+MustRefuse == \/ scn.mut \in {"dest_foreign", "stale", "future", "stale26h", "future26h", "version_11", "version_2", "wrong_root", "schema", "garbled_base64",
                               "garbled_deflate", "truncated_xml", "not_xml"}
               \/ scn.sig \in {"invalid", "wrapped", "wrapped_ownref", "wrapped_prefix"}
               \/ (scn.sig # "none" /\ scn.issuerKey = "nokey")          \* a signature must verify under the issuer's metadata key
